@@ -136,6 +136,8 @@ type Effects struct {
 	retBusy map[*ssa.Function]bool
 	wrSum   map[*ssa.Function][]Effect
 	wrBusy  map[*ssa.Function]bool
+	sfSum   map[*ssa.Function][]StoreFact
+	sfBusy  map[*ssa.Function]bool
 	// Dynamic records call sites that could not be resolved (for the evidence).
 	Dynamic map[ssa.Instruction]bool
 }
@@ -143,7 +145,8 @@ type Effects struct {
 func NewEffects(p *Program) *Effects {
 	return &Effects{p: p, memo: map[ssa.Value]RootSet{}, state: map[ssa.Value]int{}, reenter: map[ssa.Value]bool{},
 		retSum: map[*ssa.Function][]RootSet{}, retBusy: map[*ssa.Function]bool{},
-		wrSum: map[*ssa.Function][]Effect{}, wrBusy: map[*ssa.Function]bool{}, Dynamic: map[ssa.Instruction]bool{}}
+		wrSum: map[*ssa.Function][]Effect{}, wrBusy: map[*ssa.Function]bool{},
+		sfSum: map[*ssa.Function][]StoreFact{}, sfBusy: map[*ssa.Function]bool{}, Dynamic: map[ssa.Instruction]bool{}}
 }
 
 func pointerLike(t types.Type) bool {
@@ -442,6 +445,18 @@ func (e *Effects) freshContents(loc Root, user *ssa.Function) RootSet {
 			}
 		}
 	}
+	if c, ok := loc.Site.(*ssa.Call); ok {
+		if cal := c.Call.StaticCallee(); cal != nil && e.p.InRepo(cal) && len(cal.Blocks) > 0 {
+			for _, sf := range e.StoreFacts(cal) {
+				if sf.Target.Kind == rkFresh && sf.Target.Site != nil && sf.Target.Path == loc.Path {
+					found = true
+					for v := range sf.Vals {
+						out.addAll(e.substitute(v, &c.Call, c, fn))
+					}
+				}
+			}
+		}
+	}
 	for _, b := range fn.Blocks {
 		for _, in := range b.Instrs {
 			switch x := in.(type) {
@@ -601,7 +616,7 @@ func (e *Effects) substitute(r Root, com *ssa.CallCommon, site ssa.Instruction, 
 		} else {
 			// fresh in the callee: fresh for the caller, identified by the call site
 			if v, ok := site.(ssa.Value); ok {
-				out.add(Root{Kind: rkFresh, Site: v})
+				out.add(Root{Kind: rkFresh, Site: v, Path: r.Path})
 			} else {
 				out.add(Root{Kind: rkFresh, Site: r.Site})
 			}
@@ -805,5 +820,71 @@ func (e *Effects) WriteEffects(fn *ssa.Function) []Effect {
 	}
 	e.wrBusy[fn] = false
 	e.wrSum[fn] = out
+	return out
+}
+
+// StoreFact: the function stores, into location Target (a struct field), a
+// reference to the memory Vals.
+type StoreFact struct {
+	Target Root
+	Field  *types.Var // the field stored into (outermost FieldAddr), nil if not a field
+	Struct types.Type // the struct type owning Field
+	Vals   RootSet
+	Pos    token.Pos
+	In     *ssa.Function
+}
+
+// StoreFacts lists the reference-carrying stores of fn, closed over in-repo callees.
+func (e *Effects) StoreFacts(fn *ssa.Function) []StoreFact {
+	if s, ok := e.sfSum[fn]; ok {
+		return s
+	}
+	if e.sfBusy[fn] {
+		return nil
+	}
+	e.sfBusy[fn] = true
+	var out []StoreFact
+	for _, b := range fn.Blocks {
+		for _, in := range b.Instrs {
+			switch x := in.(type) {
+			case *ssa.Store:
+				if !carriesRefs(x.Val.Type()) {
+					continue
+				}
+				var vals RootSet
+				if pointerLike(x.Val.Type()) {
+					vals = e.Src(x.Val)
+				} else {
+					vals = e.derefSet(e.Src(x.Val), fn)
+				}
+				var fld *types.Var
+				var stT types.Type
+				if fa, ok := x.Addr.(*ssa.FieldAddr); ok {
+					fld = fieldOfAddr(fa)
+					stT = derefType(fa.X.Type())
+				}
+				for t := range e.Src(x.Addr) {
+					out = append(out, StoreFact{t, fld, stT, vals, x.Pos(), fn})
+				}
+			case ssa.CallInstruction:
+				com := x.Common()
+				cal := com.StaticCallee()
+				if cal == nil || !e.p.InRepo(cal) || len(cal.Blocks) == 0 {
+					continue
+				}
+				for _, sf := range e.StoreFacts(cal) {
+					vals := RootSet{}
+					for v := range sf.Vals {
+						vals.addAll(e.substitute(v, com, x, fn))
+					}
+					for t := range e.substitute(sf.Target, com, x, fn) {
+						out = append(out, StoreFact{t, sf.Field, sf.Struct, vals, x.Pos(), sf.In})
+					}
+				}
+			}
+		}
+	}
+	e.sfBusy[fn] = false
+	e.sfSum[fn] = out
 	return out
 }
